@@ -95,8 +95,14 @@ def bind_fields(tags):
     return out
 
 
+# classes declared *after* the class under test: a subclass and an unrelated class whose methods / class variables are
+# named like the unknown keys of the inputs -- what they exclude from their own fields is none of S's business
+LATER_SRC = ("class _Sub(S):\n    def zz(self):\n        return 1\n    yy: typing.ClassVar[int] = 2\n"
+             "class _Other({base}):\n    def zz(self):\n        return 1\n    _zz = 3\n")
+
+
 def build_class(base, fields, opt_expr):
-    src = M.class_source(base, fields, opt_expr)
+    src = M.class_source(base, fields, opt_expr) + LATER_SRC.format(base=base)
     env = dict(_NS)
     env["__name__"] = "utmc.ns"
     exec(src, env)
